@@ -27,6 +27,12 @@ LEAVES = [
     # an inner lambda re-binds the outer variable; the outer variable is used again afterwards
     T.lam(a, "Any", "x", T.binop("And", T.lam(T.path("x", "ys"), "Any", "x", T.binop("Eq", T.path("x", "p"), b)), T.binop("Eq", T.path("x", "b"), a))),
     T.lam(T.I("xs"), "All", "a", T.binop("Or", T.lam(T.path("a", "b"), "Any", "a", T.binop("Eq", T.I("a"), T.Int(1))), T.binop("Eq", T.I("a"), b))),
+    # the SAME clause repeated under two different outer binders with the same innermost variable: x is bound in one, free in the other
+    T.binop("And", T.lam(a, "Any", "x", T.lam(b, "Any", "y", T.binop("Eq", T.I("x"), T.path("y", "p")))),
+            T.lam(T.I("zz"), "Any", "z", T.lam(b, "Any", "y", T.binop("Eq", T.I("x"), T.path("y", "p"))))),
+    T.binop("Or", T.lam(T.I("zz"), "All", "z", T.lam(b, "Any", "y", T.binop("Eq", T.path("x", "b"), T.I("a")))),
+            T.lam(a, "Any", "x", T.lam(b, "Any", "y", T.binop("Eq", T.path("x", "b"), T.I("a"))))),
+    T.binop("And", T.binop("Eq", T.path("a", "b"), T.Int(1)), T.lam(T.I("xs"), "Any", "a", T.binop("Eq", T.path("a", "b"), T.Int(1)))),
     # sibling lambdas binding the same name, then a free use of that name
     T.binop("And", T.binop("And", T.lam(a, "Any", "x", T.binop("Eq", T.path("x", "b"), T.Int(1))), T.lam(b, "All", "x", T.binop("Eq", T.I("x"), T.Int(2)))),
             T.binop("Eq", T.I("x"), T.path("x", "b"))),
